@@ -134,6 +134,9 @@ func (obj *SparseFloat32Vector) SET(x *SparseFloat32Vector) {
   }
 }
 func (obj *SparseFloat32Vector) SLICE(i, j int) *SparseFloat32Vector {
+  if i < 0 || i > j || j > obj.n {
+    panic("slice bounds out of range")
+  }
   r := nilSparseFloat32Vector(j-i)
   for it := obj.indexIteratorFrom(i); it.Ok(); it.Next() {
     if it.Get() >= j {
@@ -221,6 +224,9 @@ func (obj *SparseFloat32Vector) Slice(i, j int) Vector {
   return obj.SLICE(i, j)
 }
 func (obj *SparseFloat32Vector) Swap(i, j int) {
+  if i < 0 || i >= obj.n || j < 0 || j >= obj.n {
+    panic("index out of bounds")
+  }
   vi, oki := obj.values[i]
   vj, okj := obj.values[j]
   switch {
